@@ -53,7 +53,8 @@ Definition tf_start (oc : ocp) (nv nvc nvp : nat) (calls : list gcall) (pvals : 
                     (seq 0 d)) (seq 0 M)) (seq 0 N);
      s_Zc := map (fun k => map (fun i => map (fun j => slots (o_nz oc) (fun s =>
                     arg_value args GZ s k (nth s (nth j (nth i (nth k (s_Zc base) []) []) []) o0)))
-                    (seq 0 d)) (seq 0 M)) (seq 0 N) |}.
+                    (seq 0 d)) (seq 0 M)) (seq 0 N);
+     s_t0loc := s_t0loc base; s_Tloc := s_Tloc base |}.
 
 (* parameter-value arguments: table of (slot, value), last wins, others keep their value *)
 Fixpoint pvals_after (pvals : list Q) (pargs : list (nat * Q)) : list Q :=
